@@ -393,6 +393,15 @@ class Recorder(object):
             self.colkeys.append(self.parts[ci]['colkeys'])
             self.relkeys.append([k for k in m.relationships.keys()
                                  if k not in ('versions', 'version_parent', 'transaction')])
+        self.nonver_keys = []
+        for ci, cls in enumerate(env.classes):
+            vo = getattr(cls, '__versioned__', None)
+            if vo is None or not env.versioned:
+                self.nonver_keys.append([k for k in self.colkeys[ci]
+                                         if not any(c.primary_key for c in sa.inspect(cls).get_property(k).columns)])
+            else:
+                ex, inc = list(vo.get('exclude', [])), list(vo.get('include', []))
+                self.nonver_keys.append([k for k in self.colkeys[ci] if k in ex and k not in inc])
         self.assoc_idx = {t: i for i, t in enumerate(env.assoc)}
         # table handles are resolved once: they must survive remove_versioning()
         self.vtabs = {}
@@ -542,7 +551,40 @@ class Recorder(object):
         for target, ev in self.cur['_pending']:
             ci = ev['cls']
             vals = []
+            st = self.sa.inspect(target)
+            stored = {}
+            if st.pending and st.unloaded:
+                # an object flushed in this flush: the attributes it was never given are not on the object yet (they read
+                # as None until the flush is over); their values are those of its row - NULL after an INSERT, the OLD
+                # row's values after a row switch (delete + add of one key in one flush is an UPDATE of the given columns)
+                m = st.mapper
+                keys = [k for k in self.colkeys[ci] if k in st.unloaded]
+                if keys:
+                    crit = [c == v for c, v in zip(m.primary_key, m.primary_key_from_instance(target))]
+                    row = session.connection().execute(
+                        self.sa.select(*[m.get_property(k).columns[0] for k in keys]).select_from(m.selectable)
+                        .where(self.sa.and_(*crit))).first()
+                    if row is not None:
+                        stored = dict(zip(keys, row))
+            # columns the package never reads (excluded columns, columns of non-versioned classes): the event reports the
+            # value the row holds after the flush.  (After a row switch SQLAlchemy leaves such attributes stale on the
+            # object - None where the row kept the old value - until the object is expired.)
+            nonver = self.nonver_keys[ci]
+            if nonver and ev['kind'] != 2 and not st.deleted:
+                m = st.mapper
+                try:
+                    crit = [c == v for c, v in zip(m.primary_key, m.primary_key_from_instance(target))]
+                    row = session.connection().execute(
+                        self.sa.select(*[m.get_property(k).columns[0] for k in nonver]).select_from(m.selectable)
+                        .where(self.sa.and_(*crit))).first()
+                    if row is not None:
+                        stored.update(zip(nonver, row))
+                except Exception:
+                    pass
             for k in self.colkeys[ci]:
+                if k in stored:
+                    vals.append(stored[k])
+                    continue
                 try:
                     vals.append(getattr(target, k))
                 except Exception:
